@@ -94,6 +94,24 @@ func (h *H) nonResidueX() []byte {
 	}
 }
 
+// overP: 32-byte values in [P, 2^256): P+j for small j (about half of them reduce to an abscissa of the
+// curve), the top of the range, and random ones
+func (h *H) overP() [][]byte {
+	var out [][]byte
+	top := new(big.Int).Lsh(big.NewInt(1), 256)
+	span := new(big.Int).Sub(top, curveP)
+	for j := int64(0); j < 10; j++ {
+		out = append(out, be32(new(big.Int).Add(curveP, big.NewInt(j))))
+	}
+	for j := int64(1); j < 4; j++ {
+		out = append(out, be32(new(big.Int).Sub(top, big.NewInt(j))))
+	}
+	for j := 0; j < 4; j++ {
+		out = append(out, be32(new(big.Int).Add(curveP, new(big.Int).Rand(h.rng, span))))
+	}
+	return out
+}
+
 func genC08(h *H) {
 	cat := func(parts ...[]byte) []byte {
 		var o []byte
@@ -146,6 +164,15 @@ func genC08(h *H) {
 		}
 		h.do("schnorr", "schnorr_pubkey_parse", hx(cat([]byte{2}, nr)))
 		h.do("schnorr", "schnorr_pubkey_parse", hx(cat([]byte{4}, x, y)))
+		// x >= P whose reduction x-P may or may not be an abscissa: every parser must refuse all of them
+		for _, ov := range h.overP() {
+			for _, t := range []byte{2, 3} {
+				h.do("x-over-p", "pubkey_parse", hx(cat([]byte{t}, ov)))
+				h.do("x-over-p", "schnorr_pubkey_parse", hx(cat([]byte{t}, ov)))
+			}
+			h.do("x-over-p", "pubkey_parse", hx(cat([]byte{4}, ov, y)))
+			h.do("y-over-p", "pubkey_parse", hx(cat([]byte{4}, x, ov)))
+		}
 		// single bit flips of valid encodings
 		for _, enc := range [][]byte{cat([]byte{2 + y[31]&1}, x), cat([]byte{4}, x, y)} {
 			for j := 0; j < 12; j++ {
